@@ -198,24 +198,171 @@ Proof.
   destruct (_ <? 256)%Z; [|destruct (_ <? 65536)%Z]; (constructor; [lia | apply be_encode_bytes]).
 Qed.
 
+(** ** stream readers on what Marshal writes, followed by anything *)
+Lemma mp_payload_app (s r : bytes) : mp_payload (N.of_nat (length s)) (s ++ r) = Some (s, r).
+Proof.
+  unfold mp_payload. rewrite app_length.
+  replace (N.of_nat (length s + length r) <? N.of_nat (length s))%N with false by lia.
+  rewrite Nat2N.id. rewrite firstn_app, firstn_all, Nat.sub_diag, skipn_app, skipn_all, Nat.sub_diag.
+  simpl. rewrite app_nil_r. reflexivity.
+Qed.
+
+Lemma mp_len_field_app k l (r : bytes) : (0 <= l < 256 ^ Z.of_nat k)%Z ->
+  mp_len_field (N.of_nat k) (be_encode k l ++ r) = Some (Z.to_N l, r).
+Proof.
+  intro Hl. unfold mp_len_field.
+  pose proof (take_app (be_encode k l) r) as Ht. rewrite be_encode_length in Ht. rewrite Ht.
+  rewrite be_roundtrip by lia. rewrite Z.mod_small by lia.
+  rewrite Nat2N.id. replace k with (length (be_encode k l)) at 1 by apply be_encode_length.
+  rewrite skipn_app, skipn_all, Nat.sub_diag. reflexivity.
+Qed.
+
+Lemma mp_read_int_enc z (r : bytes) : (- 2 ^ 63 <= z < 2 ^ 63)%Z ->
+  mp_read_int (mp_encode_int z ++ r) = Some (z, r).
+Proof.
+  intro Hz. unfold mp_encode_int. rewrite <- app_comm_cons.
+  change (mp_read_int (211%N :: be_encode 8 (z mod 2 ^ 64)%Z ++ r)) with (mp_read_sint 8 (be_encode 8 (z mod 2 ^ 64)%Z ++ r)).
+  unfold mp_read_sint.
+  pose proof (take_app (be_encode 8 (z mod 2 ^ 64)%Z) r) as Ht. rewrite be_encode_length in Ht.
+  change (N.of_nat 8) with 8%N in Ht. rewrite Ht.
+  rewrite be_roundtrip by (apply Z.mod_pos_bound; lia).
+  change (256 ^ Z.of_nat 8)%Z with (2 ^ 64)%Z. rewrite Z.mod_mod by lia.
+  replace (N.to_nat 8) with (length (be_encode 8 (z mod 2 ^ 64)%Z)) by (rewrite be_encode_length; reflexivity).
+  rewrite skipn_app, skipn_all, Nat.sub_diag. simpl skipn.
+  unfold wrap_signed. change (8 * Z.of_N 8 - 1)%Z with 63%Z. change (8 * Z.of_N 8)%Z with 64%Z.
+  f_equal. f_equal. destruct (z mod 2 ^ 64 <? 2 ^ 63)%Z eqn:H; lia.
+Qed.
+
+Lemma mp_read_str_enc s (r : bytes) : (Z.of_nat (length s) < 2 ^ 32)%Z ->
+  mp_read_str (mp_encode_str s ++ r) = Some (s, r).
+Proof.
+  intro Hl. unfold mp_encode_str. set (l := Z.of_nat (length s)) in *.
+  assert (Hl0 : (0 <= l)%Z) by lia.
+  assert (Hn : Z.to_N l = N.of_nat (length s)) by (unfold l; lia).
+  destruct (l <? 32)%Z eqn:H32.
+  - cbn [app]. unfold mp_read_str.
+    replace (Z.to_N (160 + l) =? 192)%N with false by lia.
+    replace ((160 <=? Z.to_N (160 + l)) && (Z.to_N (160 + l) <=? 191))%N with true by lia.
+    replace (Z.to_N (160 + l) - 160)%N with (N.of_nat (length s)) by lia. apply mp_payload_app.
+  - destruct (l <? 256)%Z eqn:H256; [|destruct (l <? 65536)%Z eqn:H64k]; rewrite <- app_assoc, <- app_comm_cons.
+    + change (mp_read_str (217%N :: be_encode 1 l ++ s ++ r)) with (mp_len_payload 1 0 (be_encode 1 l ++ s ++ r)).
+      unfold mp_len_payload. change 1%N with (N.of_nat 1).
+      rewrite mp_len_field_app by (change (256 ^ Z.of_nat 1)%Z with 256%Z; lia).
+      rewrite N.add_0_r, Hn. apply mp_payload_app.
+    + change (mp_read_str (218%N :: be_encode 2 l ++ s ++ r)) with (mp_len_payload 2 0 (be_encode 2 l ++ s ++ r)).
+      unfold mp_len_payload. change 2%N with (N.of_nat 2).
+      rewrite mp_len_field_app by (change (256 ^ Z.of_nat 2)%Z with 65536%Z; lia).
+      rewrite N.add_0_r, Hn. apply mp_payload_app.
+    + change (mp_read_str (219%N :: be_encode 4 l ++ s ++ r)) with (mp_len_payload 4 0 (be_encode 4 l ++ s ++ r)).
+      unfold mp_len_payload. change 4%N with (N.of_nat 4).
+      rewrite mp_len_field_app by (change (256 ^ Z.of_nat 4)%Z with (2 ^ 32)%Z; lia).
+      rewrite N.add_0_r, Hn. apply mp_payload_app.
+Qed.
+
+(** the struct: Unmarshal (Marshal (TimeBasedCursor{n, i})) = {n, i}, for any fuel >= 2 *)
+Theorem mp_time_roundtrip f n i : (- 2 ^ 63 <= n < 2 ^ 63)%Z -> (Z.of_nat (length i) < 2 ^ 32)%Z ->
+  mp_decode_time (S (S f)) (mp_encode_time n i) = DOk (n, i).
+Proof.
+  intros Hn Hi. unfold mp_encode_time.
+  change ([130; 164]%N ++ name_nano ++ mp_encode_int n ++ [162%N] ++ name_id ++ mp_encode_str i)
+    with (130%N :: ([164]%N ++ name_nano) ++ mp_encode_int n ++ ([162%N] ++ name_id) ++ mp_encode_str i).
+  change (mp_decode_time (S (S f)) (130%N :: ?x)) with (mp_struct_map (S (S f)) 2 x (0%Z, [])).
+  cbn [mp_struct_map]. change (2 =? 0)%N with false. cbv iota.
+  change ([164]%N ++ name_nano) with (mp_encode_str name_nano).
+  rewrite (mp_read_str_enc name_nano _ ltac:(vm_compute; reflexivity)). cbv iota.
+  change (bytes_eqb name_nano name_nano) with true. cbv iota.
+  rewrite (mp_read_int_enc n _ Hn). cbv iota. change (2 - 1 =? 0)%N with false. cbv iota.
+  change ([162]%N ++ name_id) with (mp_encode_str name_id).
+  rewrite (mp_read_str_enc name_id _ ltac:(vm_compute; reflexivity)). cbv iota.
+  change (bytes_eqb name_id name_nano) with false. change (bytes_eqb name_id name_id) with true. cbv iota.
+  rewrite <- (app_nil_r (mp_encode_str i)). rewrite (mp_read_str_enc i [] Hi). cbv iota.
+  destruct f; reflexivity.
+Qed.
+
+Lemma mp_encode_time_bytes n i : is_bytes i -> is_bytes (mp_encode_time n i).
+Proof.
+  intro H. unfold mp_encode_time, is_bytes, name_nano, name_id.
+  assert (K : forall l : bytes, forallb (fun x => (x <? 256)%N) l = true -> Forall (fun x => (x < 256)%N) l).
+  { intros l Hl. apply Forall_forall. intros x Hx. rewrite forallb_forall in Hl. specialize (Hl x Hx). lia. }
+  apply Forall_app; split; [apply K; reflexivity|].
+  apply Forall_app; split; [apply K; reflexivity|].
+  apply Forall_app; split; [apply mp_encode_int_bytes|].
+  apply Forall_app; split; [apply K; reflexivity|].
+  apply Forall_app; split; [apply K; reflexivity|].
+  apply mp_encode_str_bytes; exact H.
+Qed.
+
+Lemma b64_encode_length l : (length (b64_encode l) <= 2 * length l)%nat.
+Proof.
+  induction l as [| a | a b | a b c r IH] using list_ind3; cbn [b64_encode length]; lia.
+Qed.
+
 (** ** cursors *)
 (** Deserialize(Serialize(c)) == c: every cursor the server emits is accepted back and denotes the
     same position *)
 Theorem cursor_roundtrip c : cursor_ok c -> cursor_decode (kind_of c) (cursor_encode c) = Some c.
 Proof.
-  destruct c as [z|s]; simpl; intro H; unfold cursor_decode, cursor_encode.
+  intros [H Hlen]. unfold cursor_decode, cursor_decode_f. rewrite Hlen.
+  destruct c as [z|s|n i]; simpl in H; unfold cursor_encode in *.
   - rewrite (b64_roundtrip _ (mp_encode_int_bytes z)). cbn [kind_of]. rewrite (mp_int_roundtrip z H). reflexivity.
   - destruct H as [Hl Hb]. rewrite (b64_roundtrip _ (mp_encode_str_bytes s Hb)). cbn [kind_of].
     rewrite (mp_str_roundtrip s Hl). reflexivity.
+  - destruct H as [Hn [Hl Hb]]. rewrite (b64_roundtrip _ (mp_encode_time_bytes n i Hb)). cbn [kind_of].
+    destruct (length (b64_encode (mp_encode_time n i))) as [|[|f]] eqn:L.
+    + exfalso. revert L. unfold mp_encode_time, name_nano. cbn [app b64_encode length]. discriminate.
+    + exfalso. revert L. unfold mp_encode_time, name_nano. cbn [app b64_encode length]. discriminate.
+    + rewrite (mp_time_roundtrip f n i Hn Hl). reflexivity.
+Qed.
+
+(** SerializeCursor succeeds on an encodable cursor, and what it returns is accepted back *)
+Theorem cursor_roundtrip_f c : cursor_ok c ->
+  exists s, cursor_encode_f c = Some s /\ cursor_decode (kind_of c) s = Some c.
+Proof.
+  intro H. exists (cursor_encode c). split; [|apply cursor_roundtrip; exact H].
+  unfold cursor_encode_f. destruct H as [_ Hlen]. rewrite Hlen. reflexivity.
+Qed.
+
+(** sufficient conditions for [cursor_ok]: every 64-bit int; strings / ids up to 32000 bytes *)
+Lemma cursor_ok_int z : (- 2 ^ 63 <= z < 2 ^ 63)%Z -> cursor_ok (CInt z).
+Proof.
+  intro H. split; [exact H|]. unfold too_long, max_cursor_length, cursor_encode.
+  pose proof (b64_encode_length (mp_encode_int z)) as L.
+  assert (length (mp_encode_int z) = 9%nat) as L9 by (unfold mp_encode_int; cbn [length]; rewrite be_encode_length; reflexivity).
+  lia.
+Qed.
+
+Lemma mp_encode_str_length s : (length (mp_encode_str s) <= 5 + length s)%nat.
+Proof.
+  unfold mp_encode_str. rewrite app_length.
+  destruct (_ <? 32)%Z; [cbn [length]; lia|]. destruct (_ <? 256)%Z; [|destruct (_ <? 65536)%Z];
+    cbn [length]; rewrite be_encode_length; lia.
+Qed.
+
+Lemma cursor_ok_str s : (N.of_nat (length s) <= 32000)%N -> is_bytes s -> cursor_ok (CStr s).
+Proof.
+  intros Hl Hb. split; [split; [lia | exact Hb]|]. unfold too_long, max_cursor_length, cursor_encode.
+  pose proof (b64_encode_length (mp_encode_str s)). pose proof (mp_encode_str_length s). lia.
+Qed.
+
+Lemma cursor_ok_time n i : (- 2 ^ 63 <= n < 2 ^ 63)%Z -> (N.of_nat (length i) <= 32000)%N -> is_bytes i -> cursor_ok (CTime n i).
+Proof.
+  intros Hn Hl Hb. split; [split; [exact Hn | split; [lia | exact Hb]]|].
+  unfold too_long, max_cursor_length, cursor_encode.
+  pose proof (b64_encode_length (mp_encode_time n i)) as L.
+  assert (length (mp_encode_time n i) <= 23 + length i)%nat.
+  { unfold mp_encode_time, name_nano, name_id, mp_encode_int. repeat rewrite app_length. cbn [length].
+    rewrite be_encode_length. pose proof (mp_encode_str_length i). lia. }
+  lia.
 Qed.
 
 (** a serialised cursor is never the empty string (which would mean "no cursor") *)
 Theorem cursor_encode_nonempty c : cursor_encode c <> [].
 Proof.
-  unfold cursor_encode. apply b64_encode_nonempty. destruct c as [z|s].
+  unfold cursor_encode. apply b64_encode_nonempty. destruct c as [z|s|n i].
   - unfold mp_encode_int. discriminate.
   - unfold mp_encode_str. destruct (_ <? 32)%Z; [discriminate|].
     destruct (_ <? 256)%Z; [discriminate|]. destruct (_ <? 65536)%Z; discriminate.
+  - unfold mp_encode_time. discriminate.
 Qed.
 
 (** ** the cursor order of the harness is a strict total order *)
@@ -243,16 +390,33 @@ Proof.
 Qed.
 
 Theorem cursor_ltb_irrefl a : cursor_ltb a a = false.
-Proof. destruct a; simpl; [apply Z.ltb_irrefl | apply bytes_ltb_irrefl]. Qed.
+Proof.
+  destruct a; simpl; [apply Z.ltb_irrefl | apply bytes_ltb_irrefl|].
+  rewrite Z.ltb_irrefl, Z.eqb_refl, bytes_ltb_irrefl. reflexivity.
+Qed.
 
 Theorem cursor_ltb_trans a b c : cursor_ltb a b = true -> cursor_ltb b c = true -> cursor_ltb a c = true.
 Proof.
-  destruct a, b, c; simpl; try congruence; try (intros; lia). apply bytes_ltb_trans.
+  destruct a as [x|x|x i], b as [y|y|y j], c as [z|z|z k]; simpl; try congruence; try (intros; lia).
+  - apply bytes_ltb_trans.
+  - intros H1 H2.
+    destruct (x <? y)%Z eqn:Hxy; destruct (y <? z)%Z eqn:Hyz; simpl in *.
+    + replace (x <? z)%Z with true by lia. reflexivity.
+    + destruct (y =? z)%Z eqn:E; [|discriminate]. replace (x <? z)%Z with true by lia. reflexivity.
+    + destruct (x =? y)%Z eqn:E; [|discriminate]. replace (x <? z)%Z with true by lia. reflexivity.
+    + destruct (x =? y)%Z eqn:E1; [|discriminate]. destruct (y =? z)%Z eqn:E2; [|discriminate].
+      replace (x <? z)%Z with false by lia. replace (x =? z)%Z with true by lia. simpl in *.
+      eapply bytes_ltb_trans; eassumption.
 Qed.
 
 Theorem cursor_ltb_total a b : cursor_ltb a b = true \/ a = b \/ cursor_ltb b a = true.
 Proof.
-  destruct a as [x|x], b as [y|y]; simpl; auto.
+  destruct a as [x|x|x i], b as [y|y|y j]; simpl; auto.
   - destruct (Z.lt_trichotomy x y) as [H|[H|H]]; [left; lia | right; left; congruence | right; right; lia].
   - destruct (bytes_ltb_total x y) as [H|[H|H]]; auto. subst. auto.
+  - destruct (Z.lt_trichotomy x y) as [H|[H|H]].
+    + left. replace (x <? y)%Z with true by lia. reflexivity.
+    + subst y. rewrite Z.ltb_irrefl, Z.eqb_refl. simpl.
+      destruct (bytes_ltb_total i j) as [H|[H|H]]; auto. subst. auto.
+    + right. right. replace (y <? x)%Z with true by lia. reflexivity.
 Qed.
